@@ -38,7 +38,13 @@ def _root_.CV.GenReg.LV.names : LV → List Atom
   | .el t i => [.el t i]
   | _ => []
 
+def lexprNames : LExpr → List Atom
+  | .pair a _ b => a.names ++ b.names
+  | .left e _ y => lexprNames e ++ y.names
+  | .right x _ e => x.names ++ lexprNames e
+
 def _root_.CV.GenReg.RStmt.names : RStmt → List Atom
+  | .lin v e => v.names ++ lexprNames e
   | .asg v a => v.names ++ a.names
   | .bin v _ a b => v.names ++ a.names ++ b.names
   | .opasg v _ a => v.names ++ a.names
@@ -87,7 +93,14 @@ def chainPure (L : Layout) (σ : SrcSt) : Byte → List (BOp × RA) → Byte
   | acc, [] => acc
   | acc, (op, y) :: rest => chainPure L σ (op.apply acc (rval L σ y)) rest
 
+/-- the plain value of a linear expression -/
+def linPure (L : Layout) (σ : SrcSt) : LExpr → Byte
+  | .pair a op b => op.apply (rval L σ a) (rval L σ b)
+  | .left e op y => op.apply (linPure L σ e) (rval L σ y)
+  | .right x op e => op.apply (rval L σ x) (linPure L σ e)
+
 def pureSpec (L : Layout) (σ : SrcSt) : RStmt → SrcSt
+  | .lin v e => wr L σ v (linPure L σ e)
   | .chain v a op1 b1 ops => wr L σ v (chainPure L σ (op1.apply (rval L σ a) (rval L σ b1)) ops)
   | .asg v a => wr L σ v (rval L σ a)
   | .bin v op a b => binPure L σ v op a b
@@ -289,6 +302,45 @@ theorem rordered_apply (L : Layout) (τ : SrcSt) (op : BOp) (a b : RA) :
     exact apply_comm_of op _ _ this
   · rfl
 
+theorem apply_comm_ne_sub (op : BOp) (a b : Byte) (h : op ≠ .sub) : op.apply a b = op.apply b a := by
+  cases op <;> simp_all [BOp.apply, BitVec.add_comm, BitVec.and_comm, BitVec.or_comm, BitVec.xor_comm]
+
+theorem tmpStore_eqOff (L : Layout) (σ : SrcSt) (b : Byte) :
+    EqOff L ({ σ with mem := σ.mem.write (L "cctmp") b } : SrcSt) σ := by
+  refine ⟨rfl, rfl, ?_⟩
+  intro a ha
+  have : L "cctmp" ≠ a := fun e => ha e.symm
+  simp [this]
+
+theorem linVal_pure (L : Layout) (e : LExpr) {σ τ : SrcSt} (h : EqOff L σ τ) (hn : NoTmp L (lexprNames e)) :
+    (linVal L σ e).2 = linPure L τ e ∧ EqOff L (linVal L σ e).1 τ := by
+  induction e generalizing σ with
+  | pair a op b =>
+    have ha : NoTmp L a.names := NoTmp.left hn
+    have hb : NoTmp L b.names := NoTmp.right hn
+    have hr := rordered_names L op a b ha hb
+    simp only [linVal, linPure]
+    rw [rval_eqOff L h _ hr.1, rval_eqOff L h _ hr.2, rordered_apply]
+    exact ⟨rfl, (tmpWrite_eqOff L σ op _).trans h⟩
+  | left e op y ih =>
+    obtain ⟨e1, e2⟩ := ih h (NoTmp.left hn)
+    simp only [linVal, linPure]
+    rw [e1, rval_eqOff L e2 y (NoTmp.right hn)]
+    exact ⟨rfl, (tmpWrite_eqOff L _ op y).trans e2⟩
+  | right x op e ih =>
+    obtain ⟨e1, e2⟩ := ih h (NoTmp.right hn)
+    have hx : NoTmp L x.names := NoTmp.left hn
+    by_cases hs : op = .sub
+    · subst hs
+      have h3 := (tmpStore_eqOff L (linVal L σ e).1 (linVal L σ e).2).trans e2
+      simp only [linVal, linPure, beq_self_eq_true, if_true]
+      rw [rval_eqOff L h3 x hx]
+      exact ⟨by rw [e1]; rfl, h3⟩
+    · have hne : (op == BOp.sub) = false := by cases op <;> simp_all
+      simp only [linVal, linPure, hne, Bool.false_eq_true, if_false]
+      rw [e1, rval_eqOff L e2 x hx, apply_comm_ne_sub op _ _ hs]
+      exact ⟨rfl, (tmpWrite_eqOff L _ op x).trans e2⟩
+
 /-- one statement: the specification with scratch cell and the plain reading agree off the scratch cell -/
 theorem rspec_pure (L : Layout) {σ τ : SrcSt} (h : EqOff L σ τ) (st : RStmt) (hn : NoTmp L st.names) :
     EqOff L (rspec L σ st) (pureSpec L τ st) := by
@@ -316,6 +368,11 @@ theorem rspec_pure (L : Layout) {σ τ : SrcSt} (h : EqOff L σ τ) (st : RStmt)
     simp only [rspec, pureSpec]
     rw [rval_eqOff L h v.ra (by rw [ra_names_lv]; exact hn)]
     exact wr_eqOff L h v _
+  | lin v e =>
+    simp only [rspec, pureSpec]
+    obtain ⟨e1, e2⟩ := linVal_pure L e h (NoTmp.right hn)
+    rw [e1]
+    exact wr_eqOff L e2 v _
   | chain v a op1 b1 ops =>
     simp only [rspec, pureSpec, chainSpec]
     have ha : NoTmp L a.names := NoTmp.right (NoTmp.left (NoTmp.left hn))
